@@ -129,7 +129,12 @@ ViaUnifierWF(o, p, f, w) ==
             /\ UNCHANGED <<mem0, mem1, issued>>
        ELSE /\ IF w[0] THEN res0' = ErrR("DENIED") /\ UNCHANGED mem0 ELSE A!Apply(o)
             /\ IF w[1] THEN res1' = ErrR("DENIED") /\ UNCHANGED mem1 ELSE B!Apply(o)
-            /\ res' \in Combine(p, f, o, res0', res1')
+            \* PushBlobChunkedResume: both members resume, but if their sessions do not hold the
+            \* same number of bytes the unifier refuses ("registries do not agree on upload size")
+            /\ res' \in IF o.op = "Resume" /\ res0'.ok /\ res1'.ok
+                            /\ A!SizeOf(ups0'[o.r][o.u].buf) # A!SizeOf(ups1'[o.r][o.u].buf)
+                         THEN {ErrR("FAIL")}
+                         ELSE Combine(p, f, o, res0', res1')
             /\ issued' = IF o.op = "PushBlobChunked" /\ res'.ok THEN issued \cup {o.u} ELSE issued
 
 ViaUnifier(o, p, f) == ViaUnifierWF(o, p, f, NoWF)
@@ -223,10 +228,15 @@ TagConflictNeverSilentStep ==
 \* C15, second sentence: every write goes to both members and reports success only if both
 \* succeeded (each member's own step is A!Apply / B!Apply by construction of ViaUnifier).
 Undecodable == LO.op = "Resume" /\ LO.u \notin issued     \* no member is asked
+\* the members have diverged on this upload (one of them failed a Write by itself): resuming
+\* it is refused although both members would
+SizesDisagree == LO.op = "Resume" /\ ~Undecodable
+                 /\ A!SizeOf(ups0'[LO.r][LO.u].buf) # A!SizeOf(ups1'[LO.r][LO.u].buf)
 WriteBothStep ==
   (U /\ LO.op \notin ReadOps /\ ~Undecodable) =>
   /\ res'.ok => (res0'.ok /\ res1'.ok)
-  /\ (res0'.ok /\ res1'.ok) => res'.ok
+  /\ (res0'.ok /\ res1'.ok /\ ~SizesDisagree) => res'.ok
+  /\ SizesDisagree => ~res'.ok
 \* a read through the unifier changes neither member
 \* a member that failed by itself makes the whole write fail, and has stored nothing
 FaultyMemberFailsWriteStep ==
